@@ -6,6 +6,7 @@ FAMILIES = {
     'C01': [
         {'family': 'tlc', 'knobs': {}, 'quick': 320, 'thorough': 3200, 'first': 500000},
         {'family': 'tlccover', 'knobs': {}, 'quick': 0, 'thorough': 0, 'first': 700000},
+        {'family': 'tlccover2', 'knobs': {}, 'quick': 0, 'thorough': 0, 'first': 800000},
         {'family': 'core', 'knobs': {}, 'quick': 350, 'thorough': 5000},
         {'family': 'idwrap', 'knobs': {}, 'quick': 200, 'thorough': 3000, 'first': 300000},
         {'family': 'core', 'knobs': {'frag': 64, 'max_inter': 4, 'min_inter': 2, 'p_cancel': 0.0, 'p_error': 0.02}, 'quick': 150,
@@ -16,6 +17,7 @@ FAMILIES = {
                                      'kinds': ['stream', 'channel', 'channel', 'rr']}, 'quick': 300, 'thorough': 5000},
         {'family': 'core', 'knobs': {'frag': 100, 'mode': 'msg'}, 'quick': 100, 'thorough': 2000, 'first': 100000},
         {'family': 'core', 'knobs': {}, 'quick': 100, 'thorough': 2000, 'first': 200000},
+        {'family': 'tlccover2', 'knobs': {}, 'quick': 0, 'thorough': 0, 'first': 800000},
     ],
     'C06': [
         {'family': 'core', 'knobs': {'kinds': ['stream', 'channel'], 'sources': ['generator', 'async_generator'], 'p_cancel': 0.03,
@@ -49,6 +51,7 @@ FAMILIES = {
     'C09': [
         {'family': 'tlc', 'knobs': {}, 'quick': 320, 'thorough': 3200, 'first': 500000},
         {'family': 'tlccover', 'knobs': {}, 'quick': 0, 'thorough': 0, 'first': 700000},
+        {'family': 'tlccover2', 'knobs': {}, 'quick': 0, 'thorough': 0, 'first': 800000},
         {'family': 'core', 'knobs': {'p_cancel': 0.35, 'kinds': ['rr', 'stream', 'stream', 'channel', 'channel']}, 'quick': 400,
          'thorough': 6000},
         # cancelling through the Rx front ends (disposal at every moment, incl. the loop turn of subscribe())
@@ -86,6 +89,7 @@ FAMILIES = {
     'C10': [
         {'family': 'tlc', 'knobs': {}, 'quick': 320, 'thorough': 3200, 'first': 500000},
         {'family': 'tlccover', 'knobs': {}, 'quick': 0, 'thorough': 0, 'first': 700000},
+        {'family': 'tlccover2', 'knobs': {}, 'quick': 0, 'thorough': 0, 'first': 800000},
         {'family': 'core', 'knobs': {'p_cancel': 0.15, 'p_error': 0.15}, 'quick': 400, 'thorough': 6000},
         # "... and the stream's id can be used again": ids wrap around and are used again within one connection
         {'family': 'idwrap', 'knobs': {}, 'quick': 200, 'thorough': 3000, 'first': 300000},
